@@ -17,8 +17,19 @@ _set/static_set.hpp, _flat_set/flat_set.hpp, _stack/stack.hpp, _algorithm/rotate
 _algorithm/move.hpp, _algorithm/remove_if.hpp, _utility/swap.hpp, _memory/uninitialized_*.hpp,
 _memory/ranges_destroy.hpp), *as they are after the `fix:` commits of branch fix-c03 and of the C07 follow-up (e7501ef, 48efb47)*.
 
-Element kinds: `cm` copyable and movable, `mo` move-only, `co` copy-only (no move members are
-declared, so every "move" of the library binds to the copy operation and leaves its source intact).
+Element kinds: which special members the element type declares (`Members`: `cm` copyable and movable,
+`mo` move-only, `co` copy-only — no move members are declared, so every "move" of the library binds to
+the copy operation and leaves its source intact) and, per special member, whether it is user-provided
+or defaulted (`Traits`).  A user-provided member is a function the element type wrote: it is an event
+an observer sees, and the move operations reset their source.  A defaulted member of an element type
+whose only data member is an `int` is *trivial*: it copies the object representation, leaves its source
+exactly as it is (so `x = move(x)` changes nothing) and no function runs that an observer could see.
+The owners test these bits in their `requires` clauses (variant.hpp: `variant_trivially_copy_assignable`,
+`variant_trivially_move_assignable`, the trivially-copy/move-constructible clauses of the copy / move
+constructors of variant and inplace_vector, `is_trivially_destructible_v` of the destructors) and select
+either their own special member or the defaulted, byte-wise one: `Kind.trivCC` … `Kind.trivMA` are those
+tests (the same four bits as `Tetl.C07.Cfg`, here derived from the per-member bits of the element type),
+and the model follows the path they select.
 -/
 namespace Tetl.C03
 
@@ -32,6 +43,8 @@ inductive LErr where
   | oob (i : Nat)                 -- outside the arena
   | fuel
   | pre (site : String)           -- documented precondition violated
+  | notDestroyed (i : Nat)        -- the storage of an object with a non-trivial destructor is overwritten / released without it
+  | notConstructed (i : Nat)      -- an object whose copy / move constructor is not trivial appears by a copy of bytes
   deriving Repr, DecidableEq, Inhabited
 
 def LErr.fmt : LErr → String
@@ -44,6 +57,8 @@ def LErr.fmt : LErr → String
   | .oob _ => "oob"
   | .fuel => "fuel"
   | .pre s => s!"pre({s})"
+  | .notDestroyed _ => "life(not-destroyed)"
+  | .notConstructed _ => "life(not-constructed)"
 
 inductive Slot where
   | dead
@@ -54,8 +69,57 @@ def Slot.isLive : Slot → Bool
   | .dead => false
   | .live _ _ => true
 
-inductive Kind where | cm | mo | co
+/-- which special members the element type declares -/
+inductive Members where | cm | mo | co
   deriving Repr, DecidableEq, Inhabited
+
+/-- one bit per special member: `true` = user-provided (a function of the element type runs; the move operations
+    reset their source), `false` = defaulted on its first declaration and therefore trivial (the object
+    representation is copied, the source is left as it is, nothing observable runs).  `dt` is the destructor. -/
+structure Traits where
+  cc : Bool := true
+  mc : Bool := true
+  ca : Bool := true
+  ma : Bool := true
+  dt : Bool := true
+  deriving Repr, DecidableEq, Inhabited
+
+structure Kind where
+  mem : Members
+  tr : Traits := {}
+  deriving Repr, DecidableEq, Inhabited
+
+/-- the three kinds whose every special member is user-provided -/
+def Kind.cm : Kind := { mem := .cm }
+def Kind.mo : Kind := { mem := .mo }
+def Kind.co : Kind := { mem := .co }
+
+/-- the mixed kinds the harness instantiates (copyable and movable):
+    `da` defaulted copy / move *assignment* next to user-provided constructors and destructor,
+    `dm` defaulted *move* operations next to user-provided copy operations and destructor,
+    `dc` defaulted *copy* operations next to user-provided move operations and destructor -/
+def Kind.da : Kind := { mem := .cm, tr := { ca := false, ma := false } }
+def Kind.dm : Kind := { mem := .cm, tr := { mc := false, ma := false } }
+def Kind.dc : Kind := { mem := .cm, tr := { cc := false, ca := false } }
+
+/-- does a move *construction* reset its source?  (the copy constructor of a copy-only type and a trivial move
+    constructor do not) -/
+def Kind.mcResets (k : Kind) : Bool := k.mem != .co && k.tr.mc
+/-- does a move *assignment* reset its source? -/
+def Kind.maResets (k : Kind) : Bool := k.mem != .co && k.tr.ma
+
+/-- `is_trivially_copy_constructible_v<T>`: the copy constructor is trivial *and* so is the destructor (the
+    compiler builtin evaluates the variable definition `T t(declval<T const&>())`, which includes the destruction:
+    g++ 12 and clang 16 both answer `false` for a defaulted copy constructor next to a user-provided destructor) -/
+def Kind.trivCC (k : Kind) : Bool := !k.tr.cc && !k.tr.dt
+/-- `is_trivially_move_constructible_v<T>` (construction from an rvalue selects the copy constructor of a copy-only type) -/
+def Kind.trivMC (k : Kind) : Bool := (if k.mem = .co then !k.tr.cc else !k.tr.mc) && !k.tr.dt
+/-- `detail::variant_trivially_copy_assignable<T>` = trivially copy constructible and trivially copy assignable -/
+def Kind.trivCA (k : Kind) : Bool := k.trivCC && !k.tr.ca
+/-- `detail::variant_trivially_move_assignable<T>` = trivially move constructible and trivially move assignable -/
+def Kind.trivMA (k : Kind) : Bool := k.trivMC && (if k.mem = .co then !k.tr.ca else !k.tr.ma)
+/-- `is_trivially_destructible_v<T>` -/
+def Kind.trivD (k : Kind) : Bool := !k.tr.dt
 
 /-- event counters: value ctor, copy ctor, move ctor, copy assignment, move assignment, destructor -/
 structure Cnt where
@@ -144,16 +208,17 @@ def copyC (m : Mem) (i ty : Nat) (s : Src) : Except LErr Mem :=
     | .error e => .error e
     | .ok m1 => .ok (bumpCc m1)
 
-/-- `T(T&&)`; for a copy-only type the copy constructor is selected -/
+/-- `T(T&&)`; for a copy-only type the copy constructor is selected.  A user-provided move constructor resets its
+    source; a defaulted (trivial) one copies the bytes and leaves the source as it is. -/
 def moveC (k : Kind) (m : Mem) (i ty : Nat) (s : Src) : Except LErr Mem :=
-  if k = .co then copyC m i ty s
+  if k.mem = .co then copyC m i ty s
   else
     match srcVal m ty s with
     | .error e => .error e
     | .ok v =>
       match constructAt m i ty v with
       | .error e => .error e
-      | .ok m1 => .ok (bumpMc (srcMoved m1 ty s))
+      | .ok m1 => .ok (bumpMc (if k.tr.mc then srcMoved m1 ty s else m1))
 
 /-- `T::operator=(T const&)` (self-assignment is legal and changes nothing) -/
 def copyA (m : Mem) (i ty : Nat) (s : Src) : Except LErr Mem :=
@@ -165,21 +230,23 @@ def copyA (m : Mem) (i ty : Nat) (s : Src) : Except LErr Mem :=
     | .ok m1 => .ok (bumpCa m1)
 
 /-- `T::operator=(T&&)`; for a copy-only type the copy assignment is selected.  Moving an object
-    that holds its value onto itself is the illegal transition `selfMove`. -/
+    that holds its value onto itself with a user-provided move assignment (which resets its source) is the
+    illegal transition `selfMove`; a defaulted (trivial) move assignment copies the bytes, leaves the source
+    as it is, and `x = move(x)` changes nothing. -/
 def moveA (k : Kind) (m : Mem) (i ty : Nat) (s : Src) : Except LErr Mem :=
-  if k = .co then copyA m i ty s
+  if k.mem = .co then copyA m i ty s
   else
     match srcVal m ty s with
     | .error e => .error e
     | .ok v =>
       if s = .slot i then
         (match v with
-         | some _ => .error (.selfMove i)
+         | some _ => if k.tr.ma then .error (.selfMove i) else .ok (bumpMa m)
          | none => .ok (bumpMa m))
       else
         match assignAt m i ty v with
         | .error e => .error e
-        | .ok m1 => .ok (bumpMa (srcMoved m1 ty s))
+        | .ok m1 => .ok (bumpMa (if k.tr.ma then srcMoved m1 ty s else m1))
 
 /-- `~T()` -/
 def destroyAt (m : Mem) (i ty : Nat) : Except LErr Mem :=
@@ -585,20 +652,29 @@ def ivPopBack (base : Nat) (m : Mem) (n : Nat) : Except LErr (Mem × Nat) :=
 /-- `clear()` and the destructor: `ranges::destroy(*this)` -/
 def ivClear (base : Nat) (m : Mem) (n : Nat) : Except LErr (Mem × Nat) := svClear base m n
 
-/-- copy constructor: `uninitialized_copy(other.begin(), other.end(), begin()); _size = other._size` -/
+/-- copy constructor: `uninitialized_copy(other.begin(), other.end(), begin()); _size = other._size`.
+    `requires is_trivially_copy_constructible_v<T>`: the defaulted member copies storage and size as bytes, which is
+    the same `ns` trivial copy constructions (the bytes beyond `size()` are raw storage on both sides); likewise
+    `~inplace_vector() requires is_trivially_destructible_v<T> = default` and `ranges::destroy(*this)` both end the
+    lives of `[0, size())`.  (static_vector selects its storage on `is_trivial_v<T>`; an element type with a user-provided
+    default constructor — every kind here — has the non-trivial storage that is modelled.) -/
 def ivCopyConstruct (k : Kind) (m : Mem) (dst src ns : Nat) : Except LErr (Mem × Nat) :=
   svConstructFrom k false m dst src ns
 
 /-- move constructor (after the fix): `uninitialized_move(other.begin(), other.end(), begin());
     _size = other._size; other.clear()` — the moved-from elements of the source are destroyed and the
-    source is left empty.  Returns the size of the new vector and of the source. -/
+    source is left empty.  `requires is_trivially_move_constructible_v<T>`: the defaulted member instead — storage and
+    size are copied as bytes (the same `ns` trivial move constructions), and the source *keeps* its size and its
+    (trivially destructible) elements.  Returns the size of the new vector and of the source. -/
 def ivMoveConstruct (k : Kind) (m : Mem) (dst src ns : Nat) : Except LErr (Mem × Nat × Nat) :=
   match constructRange k true m ns dst src with
   | .error e => .error e
   | .ok m1 =>
-    match destroyRange m1 ns src with
-    | .error e => .error e
-    | .ok m2 => .ok (m2, ns, 0)
+    if k.trivMC then .ok (m1, ns, ns)
+    else
+      match destroyRange m1 ns src with
+      | .error e => .error e
+      | .ok m2 => .ok (m2, ns, 0)
 
 /-! ### variant<T0, ..., Tn-1>.  A variant is `(s, ix)`: one storage slot `s` (the union) and the
 index of the live alternative.  `trk j` says whether alternative `j` is an instrumented type
@@ -635,16 +711,41 @@ def varAssignValue (k : Kind) (trk : Nat → Bool) (mv : Bool) (m : Mem) (s ix j
      else .ok (m, j))
   else varEmplace k trk m s ix j (if mv then .move src else .copy src)
 
-/-- copy / move constructor: `_union(uninitialized_union())`, then `replace(other.index, move(other.value))` -/
+/-- copy / move constructor: `_union(uninitialized_union())`, then `replace(other.index, move(other.value))`.
+    `requires … and not (... and is_trivially_copy_constructible_v<Ts>)` (resp. move): when every alternative is trivially
+    copy (move) constructible the defaulted constructor copies index and bytes — which is the one trivial copy (move)
+    construction of the live alternative that `copyC` / `moveC` perform for such an element type (no reset of the source,
+    nothing observable), so both paths are this definition.  Likewise `~variant() requires (... and
+    is_trivially_destructible_v<Ts>) = default` and `destroy()` both end the life of the live alternative (`vDestroy`). -/
 def varConstructFrom (k : Kind) (trk : Nat → Bool) (mv : Bool) (m : Mem) (dst src ixs : Nat) : Except LErr (Mem × Nat) :=
   match vConstruct k trk m dst ixs (if mv then .move (.slot src) else .copy (.slot src)) with
   | .error e => .error e
   | .ok m1 => .ok (m1, ixs)
 
-/-- `assign(other)`: same index → assign through; else `destroy(); replace(rhs.index, move(rhs.value()))`.
+/-- the *defaulted* `operator=(variant const&)` / `operator=(variant&&)`: `_index = other._index; _union = other._union`,
+    a copy of the object representation — no special member of any alternative runs.  The alternative held before
+    ends its life without a destructor call (`notDestroyed` unless its destructor is trivial) and the new one begins
+    its life without a constructor call (`notConstructed` unless the copy / move constructor the assignment stands for
+    is trivial); when both are trivial this is what `destroy(); replace(...)` does with trivial members.  Copying an
+    object onto itself changes nothing. -/
+def varAssignBytes (k : Kind) (trk : Nat → Bool) (mv : Bool) (m : Mem) (dst ixd src ixs : Nat) : Except LErr (Mem × Nat) :=
+  if dst = src then .ok (m, ixd)
+  else if trk ixd && !k.trivD then .error (.notDestroyed dst)
+  else if trk ixs && !(if mv then k.trivMC else k.trivCC) then .error (.notConstructed dst)
+  else
+    match vDestroy trk m dst ixd with
+    | .error e => .error e
+    | .ok m1 => varConstructFrom k trk mv m1 dst src ixs
+
+/-- `variant = variant`.  `requires (... and variant_copy_assignable<Ts>) and not (... and variant_trivially_copy_assignable<Ts>)`
+    (resp. the move forms): when every alternative is trivially copy (move) constructible and assignable the user-provided
+    member is constrained away and the defaulted, byte-wise one is selected (`varAssignBytes`; alternatives that are not
+    instrumented — `nullopt_t` — are trivial in every respect, so the bits of the instrumented element type decide).
+    Otherwise `assign(other)`: same index → assign through; else `destroy(); replace(rhs.index, move(rhs.value()))`.
     `src` may be `dst` (self-assignment). -/
 def varAssignFrom (k : Kind) (trk : Nat → Bool) (mv : Bool) (m : Mem) (dst ixd src ixs : Nat) : Except LErr (Mem × Nat) :=
-  if ixd = ixs then
+  if (if mv then k.trivMA else k.trivCA) then varAssignBytes k trk mv m dst ixd src ixs
+  else if ixd = ixs then
     (if trk ixd then
       match (if mv then moveA k m dst ixd (.slot src) else copyA m dst ixd (.slot src)) with
       | .error e => .error e
